@@ -44,6 +44,7 @@ Definition gcomm_step (s : gc) (e : yev) : gc * list yout :=
       if accept then let '(s1, o, _) := comm_request s "s1f13received" in (s1, YSendS1F14 a :: o) else (s, [YSendS1F14 a])
     else if is s communication_COMMUNICATING then (s, [YSendS1F14 a])          (* _handle_stream_function -> _on_s01f13 *)
     else (s, [])
+  | YInS1F13Unanswerable => (s, [])            (* send_response returned False: s1f13received is not called (D63) *)
   | YInS1F14 c readable =>
     if is s communication_WAIT_CRA then
       let '(s1, o, _) := comm_request s (if readable && (c =? 0)%Z then "s1f14received" else "communicationreqfail") in (s1, o)
